@@ -758,19 +758,37 @@ def gen_blocks(rng, size="small", force=()):
     return out
 
 
-def render(blocks):
+FINALE = '''
+finq(a: Integer, b: Integer): Integer == {
+	try a quo b catch E in {
+		true => -1;
+		never;
+	}
+}
+'''
+
+
+def render(blocks, finale=False):
+    """finale: the program ends with its FIRST use of a runtime service that is looked up late - a
+    runtime error raised by the library (big-integer division by zero) and caught - after all the
+    other work and whatever collections fell into it."""
     s = HEADER
+    uses_rterr = any(kind == "rterr" for kind, d, call in blocks)
     for kind, d, call in blocks:
         s += d
+    if finale and not uses_rterr:
+        s += FINALE
     s += "\nmain(): () == {\n"
     for i, (kind, d, call) in enumerate(blocks):
         s += '\tprint << "@%d " << %s << newline;\n' % (i + 1, call)
+    if finale and not uses_rterr:
+        s += '\tprint << "@fin " << finq(10^20, 7) << " " << finq(10^20, 0) << newline;\n'
     s += "}\nmain();\n"
     return s
 
 
-def gen_program(rng, size="small", force=()):
-    return render(gen_blocks(rng, size, force))
+def gen_program(rng, size="small", force=(), finale=False):
+    return render(gen_blocks(rng, size, force), finale=finale)
 
 
 def gen_program_parts(rng, size="small"):
